@@ -32,7 +32,10 @@ ASSUMPTIONS = ["theorems about values are over a commutative ring with per-axis 
                "(w^n=1, w*wi=1, ninv*n=1, orthogonality); exp(-2 pi i/n) in C satisfies them (proved in Lemmas/C11Complex.lean)",
                "irfftn is modelled on Hermitian-consistent half spectra only (what rfftn produces); inputs whose zero/Nyquist planes "
                "are not conjugate-symmetric are outside the property and are not generated"]
-UNPROVED = []
+UNPROVED = ["that the driver's formal root-of-unity arithmetic (Poly: sums = concatenation, products = added exponent vectors) obeys the "
+            "commutative-ring laws the value theorems assume is not proved in Lean; every case evaluates it at the complex roots and "
+            "compares with the real code",
+            "irfftn on half spectra that are not Hermitian-consistent (library-defined behaviour, outside the property) is not modelled"]
 BUDGET = {"quick": 100, "thorough": 1200}
 
 SIZES = [1, 2, 3, 4, 5, 6, 8]
@@ -75,7 +78,7 @@ def cases(rng, tier):
         yield dict(kind="mesh", mesh=gen_spec(rng, n=[n]), sub=rng.getrandbits(32))
     for _ in range(100 if quick else 600):
         yield dict(kind="mesh", mesh=gen_spec(rng, exact=True, max_cells=4096), sub=rng.getrandbits(32))
-    for _ in range(400 if quick else 3000):
+    for _ in range(400 if quick else 2500):
         big = rng.random() < 0.3
         yield dict(kind="mesh", mesh=gen_spec(rng, max_cells=10 ** 6, sizes=(list(range(1, 41)) if big else SIZES)),
                    sub=rng.getrandbits(32))
@@ -90,7 +93,7 @@ def cases(rng, tier):
         four = rng.sample(four, 16)
     for shape in three + four:
         yield field_case(rng, gen_spec(rng, n=list(shape)))
-    for _ in range(260 if quick else 2500):
+    for _ in range(260 if quick else 1700):
         yield field_case(rng, gen_spec(rng, max_cells=(48 if quick else 96)))
     for _ in range(6 if quick else 40):
         yield field_case(rng, gen_spec(rng, max_cells=(120 if quick else 200)), nvdim=1)
@@ -548,7 +551,7 @@ def cmp_mesh(name, got, mj, exact, dis):
                 return
 
 
-def cmp_cf(name, fld, r, dis):
+def cmp_cf(name, fld, r, dis, in_sum=0.0):
     if fld is None:
         if "ok" in r:
             dis.append(f"{name}: impl raised, model ok")
@@ -574,7 +577,7 @@ def cmp_cf(name, fld, r, dis):
     if not bool(np.all(fld.valid)):
         dis.append(f"{name}: impl result has invalid cells")
     val, l1 = eval_coef(ok)
-    tol = 1e-11 * (l1 + 1e-300)
+    tol = 1e-11 * max(l1, in_sum, 1e-300)   # l1 norm of the model's coefficients / of the input: bounds the rounding of an FFT
     if not np.allclose(np.asarray(fld.array, dtype=complex), val, rtol=0, atol=tol):
         i = np.unravel_index(np.argmax(np.abs(fld.array - val)), val.shape)
         dis.append(f"{name}: value at cell {tuple(int(x) for x in i[:-1])} comp {int(i[-1])}: impl {complex(fld.array[i])} vs model {complex(val[i])}")
@@ -606,11 +609,15 @@ def compare(case, obs, rs):
                 cmp_mesh(name, p["mesh"], r["ok"], exact and p["shape"] in (None, obs["m"]["n"]), dis)
         return dis
     it = iter(rs)
-    cmp_cf("Field.fftn", obs["res"]["fftn"], next(it), dis)
+
+    def insum(key):
+        return sum(abs(float(F(x))) for part in ("re", "im") for row in obs[key].get(part, []) for x in row)
+
+    cmp_cf("Field.fftn", obs["res"]["fftn"], next(it), dis, insum("f"))
     if "rfftn" in obs["res"]:
-        cmp_cf("Field.rfftn", obs["res"]["rfftn"], next(it), dis)
-    cmp_cf("Field.ifftn", obs["res"]["ifftn"], next(it), dis)
-    cmp_cf(f"Field.irfftn(shape={obs['tshape']})", obs["res"]["irfftn"], next(it), dis)
+        cmp_cf("Field.rfftn", obs["res"]["rfftn"], next(it), dis, insum("f"))
+    cmp_cf("Field.ifftn", obs["res"]["ifftn"], next(it), dis, insum("kf"))
+    cmp_cf(f"Field.irfftn(shape={obs['tshape']})", obs["res"]["irfftn"], next(it), dis, insum("krf"))
     return dis
 
 
